@@ -51,6 +51,20 @@ def stream_real(tier, seed):
             S.check_instance(p, h, m, problems, stats)
             if idx < 2:
                 samples.append(dict(model=h["info"], objective=float(p.objective.eval())))
+            if idx % 3 == 0 and not h.get("solve_kw"):
+                # the metric list REPLACED by a list of the same length, then a re-solve: the objective of the new
+                # instance is the smallest of the CURRENT metrics (seed C02-9: objective rows cached per metric count)
+                first = float(p.objective.eval())
+                new_metric = p.list_of_performance_metrics[0] / 2
+                p.list_of_performance_metrics = [new_metric] + [mm + 1 for mm in p.list_of_performance_metrics[1:]]
+                S._quiet_solve(p, return_primal_or_dual="dual")
+                second, mets = float(p.objective.eval()), [float(mm.eval()) for mm in p.list_of_performance_metrics]
+                sc = max(1.0, abs(first))
+                stats["obj_gap_after_metric_replacement"] = max(stats.get("obj_gap_after_metric_replacement", 0),
+                                                                abs(second - min(mets)) / sc)
+                if abs(second - min(mets)) > 1e-5 * sc:
+                    problems.append(dict(kind="objective-is-not-min-metric-after-metric-replacement", model=m,
+                                         objective=second, metrics=mets, first_objective=first))
         except Exception as e:         # solving / evaluating a well-posed model must not raise
             problems.append(dict(kind="real-model-raised", model=m, error="%s: %s" % (type(e).__name__, str(e)[:200])))
     bstats = {}
